@@ -11,23 +11,25 @@ CLAIMED = {
  "C01": ("SPDX 2.3 JSON write-then-read on documents built from decisions and symbolic identifiers/values, the JSON text layer cut at the value tree "
          "(encoding/json modelled, custom Marshal/Unmarshal code of the SPDX library interpreted): node set with kinds, typed edge set for every "
          "relationship type the model shares with SPDX, root set; per attribute of packages and files (one symbolic field at a time, every enum number); "
-         "a second pass changes nothing. N<=3 nodes, E<=2 edges, 2 targets.", "3.C01"),
+         "a second pass changes nothing. N<=3 nodes, E<=2 edges, 2 targets.", "12.3"),
  "C02": ("CycloneDX 1.4/1.5 write-then-read: every tree shape on up to 4 (quick) / 5 (thorough) nodes times every order of the stored contains edges "
          "(one edge per pair or grouped per parent), node set and parent function; per CycloneDX-expressible attribute with symbolic values and every "
          "enum number (hash algorithms, external reference types, purposes) at root / top-level / nested position; serial number, numeric version, "
-         "lifecycle types; second pass. Multi-licence loss is a listed known finding.", "3.C02"),
+         "lifecycle types; second pass. Multi-licence loss is a listed known finding.", "12.3"),
  "C03": ("Documents written as SPDX 2.3 / CycloneDX 1.4/1.5 from graphs with symbolic identifiers (dangling, repeated, self-referencing shapes by decision) "
-         "are self-contained: every reference in the emitted value tree resolves inside it, and reading it back gives a closed graph.", "3.C03"),
+         "are self-contained: every reference in the emitted value tree resolves inside it, and reading it back gives a closed graph; also for a "
+         "document written after another (successful or failed) write in the same process.", "12.3"),
  "C04": ("Parsers on damaged input: every single structural fault (null, wrong type a/b, absent, empty, duplicated) at every position of a reference "
          "CycloneDX and SPDX value tree (quick), pairs of faults (thorough) and hand-picked shapes: the reader returns a document or an error; "
-         "no panic (recover semantics modelled), no process exit. Byte-level JSON syntax errors are outside (encoding/json is cut).", "3.C04"),
+         "one string value at a time arbitrary (symbolic): the reader returns a document or an error; no panic (defer/recover semantics modelled incl. "
+         "the direct-call rule), no process exit. Byte-level JSON syntax errors are outside (encoding/json is cut).", "12.3"),
  "C05": ("Parsed graphs: closure of roots/edge endpoints, non-empty and input-unique identifiers, generated identifiers (count, alphabet, distinctness) "
          "for CycloneDX trees of <=3/4 components with symbolic / absent / repeated references and SPDX documents of <=2/3 elements with "
          "decision-chosen relationships; parsing twice, with the format stated, and behind a symbolic leading layout byte gives identical graphs; "
-         "NewNodeIdentifier on seeds of <=2/3 symbolic code points (<= U+2FFFF): non-empty, identifier-safe alphabet, deterministic.", "3.C05"),
+         "NewNodeIdentifier on seeds of <=2/3 symbolic code points (<= U+2FFFF): non-empty, identifier-safe alphabet, deterministic.", "12.3"),
  "C06": ("Format detection as a decision table over the decoded top-level declaration (symbolic bomFormat/specVersion/spdxVersion, present or absent), "
          "the line sniffer over <=2/3 symbolic text lines, the rewind contract incl. failing Seek, agreement between writer output and sniffer for "
-         "every registered format. JSON byte syntax is outside (encoding/json is cut).", "3.C06"),
+         "every registered format. JSON byte syntax is outside (encoding/json is cut).", "12.3"),
  "C08": ("One inductive step per editing operation (union, intersect, add, remove, relate node/list, the three extractions) from an arbitrary well-formed "
          "pre-state with symbolic identifiers: post-state well-formed, normalised where the property says so, RemoveNodes exact. Covers every equality pattern "
          "of ids/endpoints/roots within N<=3 nodes, E<=2 edges, T<=1 (quick) / 2 (thorough) targets, R<=1..3 roots; sequences follow by induction.", "3.C08"),
@@ -38,12 +40,14 @@ CLAIMED = {
  "C15": ("NodeGraph / NodeSiblings / NodeDescendants against a reference bounded-reachability fixpoint evaluated symbolically alongside the code; "
          "node set, edge bounds, root list, monotonicity in depth; termination by unwinding assertion. N<=3 general (4 in the fan-out family), E<=2, T<=2.", "3.C15"),
  "C16": ("Plain lookups return exactly the matching nodes (pointer identity, each once) for symbolic ids/names/identifiers incl. repeated ids; "
-         "GetMatchingNode against the documented rule for every map iteration order (order is a decision variable).", "3.C16"),
+         "GetMatchingNode against the documented rule for every map iteration order (order is a decision variable), incl. the three-node tie-break cases.", "12.3"),
  "C07": ("Serialize of every registered driver (CycloneDX 1.4/1.5, SPDX 2.3) on arbitrary Document values built by decisions (absent metadata / node list / "
-         "document-type parts, full-range enum numbers, symbolic ids with dangling/cyclic/repeated shapes, auto-generated ids): no panic, no process exit, "
-         "output or error; independence from earlier serializations (history harness). Render/JSON text is outside (see C07 note in DESIGN).", "3.C07"),
+         "document-type parts, full-range enum numbers, symbolic ids with dangling/cyclic/repeated shapes, auto-generated ids, every containment tree on <=5 "
+         "nodes plus one extra contains edge): no panic, no process exit, termination (unwinding assertion), output or error; output independent of earlier "
+         "successful or failed serializations (SPDX and CycloneDX histories) and of map iteration order (two runs, all orders, equal up to array order and "
+         "creation time). JSON text is outside (see DESIGN 12.3/12.7).", "12.3"),
  "C11": ("Write-set monitor: every store (incl. appends into spare capacity, sort swaps, copy) into memory reachable from the operands of every listed "
-         "read-only operation is a violation on that path, with a value-changing witness from the solver; order-relevant data symbolic.", "3.C11"),
+         "read-only operation is a violation on that path, with a value-changing witness from the solver; order-relevant data symbolic; 16 operand shapes (spare capacity, parallel edges, two contacts, file nodes with arbitrary text).", "12.3"),
  "C12": ("Havoc-and-compare: every mutable location reachable from a copy/result gets a fresh symbolic value and the source's snapshot must be provably "
          "unchanged (and vice versa), for Node, Edge, Person, ExternalReference, NodeList copies, Union/Intersect results, and call histories.", "3.C12"),
  "C13": ("Node/Edge/NodeList equality vs same-content (multisets, dates to the second) per schema field, symmetry, transitivity, checksum agreement, "
@@ -52,13 +56,13 @@ CLAIMED = {
          "schema field and for field pairs; nested-element identity collisions are a listed known finding.", "3.C14"),
  "C17": ("Lock-set analysis of every package-level entry point of reader/writer (+ identifier generation) executed symbolically in pairs with call-granular "
          "interleaving: unprotected conflicting accesses to pre-existing memory = data race; several atomic steps on one shared object within a call = not "
-         "linearizable. Counterexamples replayed under go test -race.", "3.C17"),
+         "linearizable. 15 entry points: registries, lookups, constructors, configuration in place, write, parse, line and JSON format detection, identifier generation. Counterexamples replayed under go test -race.", "12.3"),
  "C18": ("Histories of 3 constructor calls with decision-chosen options and symbolic option values; every instance compared with f(defaults, own options); "
-         "per-call options observed through recording drivers; later instances pristine.", "3.C18"),
+         "per-call options observed through recording drivers; one per-call object shared by two writers; configuration in place; later and earlier instances unchanged.", "12.3"),
  "C19": ("Store/Retrieve on a file-system + protobuf-codec model: symbolic identifiers, unprivileged process, injected I/O failures, corrupted entries; "
          "round trip, isolation, confinement, NoClobber, overwrite, error returns.", "3.C19"),
  "C20": ("Crash point (every mutating call boundary) and torn-write length (solver variable) during Store on the file-system model, first store and "
-         "overwrite; Retrieve afterwards returns old, new or error; other entries intact. Native replay kills a child inside the write (RLIMIT_FSIZE).", "3.C20"),
+         "overwrite, with and without NoClobber; Retrieve afterwards returns old, new or error; other entries intact; a completed store after an interrupted one is retrieved exactly. Native replay kills a child inside the write (RLIMIT_FSIZE).", "12.3"),
 }
 
 NA_REASON = "check under construction in this session; not yet claimed"
